@@ -1,4 +1,8 @@
 From Coq Require Import ExtrOcamlBasic.
-Require Import Base Tables Utf8 Tree Recog Driver Inl3e Render Fmt Entry.
+Require Import Base Tables Utf8 Tree Recog Html Inl3b Driver Inl3e Render Fmt Entry SafeW.
 Extraction "model.ml" parseBlocks parseFull renderDoc formatDoc renderRoots renderRootsWith formatRoots refsOfRoots
-  listItemNumber linkReference isTightList isOrdered.
+  listItemNumber linkReference isTightList isOrdered bokW
+  parseThematicBreak parseATXHeading parseSetextHeadingUnderline parseCodeFence parseListMarker
+  normalizeURI isEmailAddress parseEmail filterRaw urlHexDigit
+  isSpaceTabOrLineEnding isASCIILetter isASCIIDigit isASCIIPunctuation isASCIIControl isHex toLowerASCII
+  isUnquotedAttributeValueChar.
